@@ -143,11 +143,40 @@ func verifRunPaging(out *verifkit.Trace, rng *rand.Rand, sim *verifsim.Sim, sid 
 		}
 		root, err = NewCollectionFromObject(build(1).(map[string]any), nil, verifConstructTag)
 	} else {
+		/* how the pages of a collection are addressed: own paths; one path with a query that has non-ASCII text in it;
+		   cursors that differ in letter case only; or one canonical path with a page number, every page also reachable
+		   under an alias that serves the same document (whose id names the canonical address), next links relative */
+		style := rng.Intn(5)
 		pagePath := func(p int) string {
-			if p == 1 {
+			switch {
+			case p == 1:
 				return fmt.Sprintf("/col%d", sid)
+			case style == 1:
+				return fmt.Sprintf("/col%d/pages?tag=café日本&page=%d", sid, p)
+			case style == 2:
+				return fmt.Sprintf("/col%d/pages?max_id=9z%s%d", sid, []string{"AbQ", "abq", "aBq", "ABQ"}[p%4], p/4)
+			case style == 3:
+				return fmt.Sprintf("/col%d/c?page=%d", sid, p)
 			}
 			return fmt.Sprintf("/col%d/page%d", sid, p)
+		}
+		aliasPath := func(p int) string { return fmt.Sprintf("/col%d/alias%d", sid, p) }
+		register := func(path string, raw []byte) {
+			h.Set(path, &verifsim.Route{Raw: raw})
+			/* the request target as a client writes it (non-ASCII escaped byte by byte) */
+			if parsed, err := url.Parse(h.URL(path)); err == nil {
+				escaped := ""
+				for _, b := range []byte(parsed.RequestURI()) {
+					if b >= 0x80 || b == ' ' {
+						escaped += fmt.Sprintf("%%%02X", b)
+					} else {
+						escaped += string(b)
+					}
+				}
+				if escaped != path {
+					h.Set(escaped, &verifsim.Route{Raw: raw})
+				}
+			}
 		}
 		for p := range in.Pages {
 			obj := verifPageObject(rng, in.Pages, p+1, ordered, func(q int) any {
@@ -158,6 +187,14 @@ func verifRunPaging(out *verifkit.Trace, rng *rand.Rand, sim *verifsim.Sim, sid 
 				pageKind := "CollectionPage"
 				if ordered {
 					pageKind = "OrderedCollectionPage"
+				}
+				if style == 3 && q > 1 {
+					/* from a page of the canonical path the next page is named relatively; from the root by a stub
+					   that carries the alias */
+					if p+1 > 1 {
+						return fmt.Sprintf("?page=%d", q)
+					}
+					return map[string]any{"id": h.URL(aliasPath(q)), "type": pageKind}
 				}
 				switch rng.Intn(6) {
 				case 0:
@@ -170,7 +207,10 @@ func verifRunPaging(out *verifkit.Trace, rng *rand.Rand, sim *verifsim.Sim, sid 
 			obj["id"] = h.URL(pagePath(p + 1))
 			w := &verifsim.World{Sim: sim}
 			raw := w.Render("p1"+pagePath(p+1), verifsim.Resp{Status: 200, Ct: []string{"activity"}, Body: "obj", JSON: obj}, rng)
-			h.Set(pagePath(p+1), &verifsim.Route{Raw: raw})
+			register(pagePath(p+1), raw)
+			if style == 3 {
+				register(aliasPath(p+1), raw)
+			}
 		}
 		if rng.Intn(2) == 0 {
 			/* a missing page may also be something that is not a collection at all */
